@@ -211,6 +211,10 @@ def _try_one(ex, c, qual, names, conc, args0, cz, call):
                 A[k] = embed(ex2, cz.val(v), memo)
             except Exception:
                 A[k] = v
+    if c.ghosts:
+        # ghosts without a model value stay universally quantified
+        for k, v in c.ghosts(ex2, st, 'proof', {}).items():
+            A.setdefault(k, v)
     st.ghost.update({k: v for k, v in A.items() if k not in names})
     A2 = dict(A)
     A2['$ex'], A2['$st'] = ex2, st
@@ -226,6 +230,13 @@ def _try_one(ex, c, qual, names, conc, args0, cz, call):
         ok = closed_valid(ob.pc, ob.goal)
         if ok is False:
             failed.append(ob.name)
+    native = getattr(c, 'native_post', None)
+    if native is not None and not failed:
+        # executable form of the contract's functional spec (the loop body
+        # contract unrolled): the property's sentence as a spec function
+        why = native(dict(zip(names, snapshot)), result)
+        if why:
+            failed.append('spec-function: ' + str(why)[:200])
     if failed:
         info['status'] = 'reproduced'
         info['failed_clauses'] = failed[:6]
@@ -270,3 +281,34 @@ def replay_function(ex, c, qual, model, args0, caller=None):
         info['status'] = 'no-replay'
         info['why'] = repr(e)[:300]
     return info
+
+
+def search_function(ex, c, qual, args0, tries=400, seed=0):
+    """bounded native search for a failing input, used when the solver
+    answers `unknown`: inputs come from the contract's sampler, every
+    candidate is run on the real function and judged by the same contract.
+    Sound for refutation only (a found input is a genuine failing input)."""
+    import random
+    sampler = getattr(c, 'sampler', None)
+    if sampler is None:
+        return {'status': 'no-replay', 'why': 'no sampler for ' + qual}
+    rng = random.Random(seed)
+    fi = ex.repo.funcs[qual]
+    names = [a.arg for a in fi.node.args.args]
+    cz = Concretizer(ex, None)
+    last = {'status': 'not-reproduced'}
+    n = 0
+    for _ in range(tries):
+        conc = sampler(rng)
+        n += 1
+        try:
+            last = _try_one(ex, c, qual, names, conc, {}, cz,
+                            lambda f, a: f(*a))
+        except Exception as e:
+            last = {'status': 'no-replay', 'why': repr(e)[:200]}
+            continue
+        if last.get('status') == 'reproduced':
+            last['found_by'] = 'bounded native search, %d candidates' % n
+            return last
+    last['searched'] = n
+    return last
